@@ -672,6 +672,22 @@ theorem metrics_after_history_from {c : Dag} (h : DagInv c) (hh : GroupHyp c) (e
   obtain ⟨⟨P, g⟩, hh'⟩ := C12.history_groupHyp es h hh hok
   exact metrics_eq_spec_of_wires g hh'.plain
 
+/-- **depth metrics after any history, whatever the user labels**: for every history of well-formed edits (`C12.HistOK`: no
+    assumption on labels or on how operations were constructed) from a fresh circuit, if no operation of the reached circuit is filed
+    under `Input`, then `register_depth` and `CircuitDepth` equal their specifications on every schedule of it -/
+theorem depth_after_history_with_user_labels (ne np nc : Nat) (es : List C12.Edit) (hok : C12.HistOK (Dag.init ne np nc) es)
+    (hk : NoInputKey (C12.run (Dag.init ne np nc) es)) :
+    ∃ P, Good (C12.run (Dag.init ne np nc) es) P ∧ (∃ L, Sched (C12.run (Dag.init ne np nc) es) P L) ∧
+      ∀ L, Sched (C12.run (Dag.init ne np nc) es) P L →
+        (∀ t, (C12.run (Dag.init ne np nc) es).calculateRegDepth t =
+          .ok ((List.range ((C12.run (Dag.init ne np nc) es).regs t)).map (fun i => (Spec.regDepth (L.map (·.2)) ⟨t, i⟩ : Int)))) ∧
+        ((C12.run (Dag.init ne np nc) es).nodeIds ≠ [] →
+          Metrics.circuitDepth (C12.run (Dag.init ne np nc) es) = (Spec.depth (L.map (·.2)) : Int)) := by
+  obtain ⟨P, g⟩ := C12.history_from_init ne np nc es hok
+  refine ⟨P, g, sched_exists g, fun L hS => ?_⟩
+  obtain ⟨h1, _, h3, _⟩ := depth_metrics_with_user_labels g hk hS
+  exact ⟨h1, h3⟩
+
 /-- … in closed form: the metrics of the reached circuit are the specifications evaluated on `wireOpList` of it, a computable
     function of the wires `reg_gate_history` returns and of the node operations -/
 theorem metrics_after_history_of_wires (ne np nc : Nat) (es : List C12.Edit) (hok : C12.HistOKg (Dag.init ne np nc) es) :
